@@ -52,6 +52,18 @@ def valid_frames(rng, rx):
             f = ashlib.mk_frame(f"E:2:{rng.choice([81, 2])}")
         else:
             f = ash.RstFrame()
+        if rng.random() < 0.12:
+            # a CRC-valid frame of arbitrary shape: any control byte, data field of any length incl. the
+            # lengths around and beyond the 256 bytes a DATA frame may carry (built without bellows)
+            c0 = rng.choice([cur << 4, rng.randrange(8) << 4 | rng.randrange(16), 0x80 | rng.randrange(32), 0xA0 | rng.randrange(32),
+                             0xC0, 0xC1, 0xC2, rng.randrange(0xC3, 0x100), rng.getrandbits(8)])
+            n = rng.choice([0, 1, 2, 3, 5, 255, 256, 257, 258, 300, rng.randint(259, 900)])
+            body = bytes([c0]) + bytes(rng.getrandbits(8) for _ in range(n))
+            c = ashlib.crc16(body)
+            frames.append(ashlib.spec_stuff(body + bytes([c >> 8, c & 0xFF])) + b"\x7e")
+            if c0 < 0x80 and (c0 >> 4) == cur and n <= 256:
+                cur = (cur + 1) % 8
+            continue
         frames.append(bytes(ash.AshProtocol._stuff_bytes(f.to_bytes())) + b"\x7e")
     return frames
 
